@@ -442,18 +442,110 @@ func (w *world) ping6(r *gen.Rng, n int, multi bool) {
 	var cs []int
 	kind := "v6-echo"
 	if multi {
-		cs = chunks(r, len(p), 48, true)
+		// splits at even offsets only / at any offset (odd view sizes included), half and half
+		cs = chunks(r, len(p), 48, r.Bool())
 		kind = "v6-echo-multiview"
 	}
 	w.lenBucket(n)
 	w.shot6(p, cs, kind)
 }
 
-func (w *world) odd6(r *gen.Rng, n int) {
+// the sizes of the views Inject makes of a packet of total bytes, without the first skip bytes
+func dataViews(total int, cs []int, skip int) []int {
+	var sizes []int
+	rest := total
+	for _, c := range cs {
+		if c > rest {
+			c = rest
+		}
+		sizes = append(sizes, c)
+		rest -= c
+	}
+	if rest > 0 || len(sizes) == 0 {
+		sizes = append(sizes, rest)
+	}
+	var out []int
+	for _, c := range sizes {
+		if skip >= c {
+			skip -= c
+			continue
+		}
+		if c-skip > 0 {
+			out = append(out, c-skip)
+		}
+		skip = 0
+	}
+	return out
+}
+
+func oddNonFinal(sizes []int) bool {
+	for i := 0; i+1 < len(sizes); i++ {
+		if sizes[i]%2 == 1 {
+			return true
+		}
+	}
+	return false
+}
+
+// IPv6 echo requests whose echo data reaches handleICMP in views of which one that is not the last
+// has odd length: the input shape of the fixed finding C13-echo6-odd-chunk (before /repo commit
+// 1404d7f icmpChecksum summed the payload view by view and the reply's checksum was wrong).
+// Always generated; a reply that does not verify is a plain violation.
+func (w *world) odd6(r *gen.Rng, k int) {
 	src, dst := pick(r, peers6), pick(r, own6)
-	p := netx.IPv6Packet(src, dst, 58, 64, icmp6(src, dst, 128, 0, pickID(r), pickID(r), payload(r, n), false))
-	cs := chunks(r, len(p), 48, false)
-	w.shot6(p, cs, "v6-echo-anyviews")
+	mk := func(n int) []byte {
+		return netx.IPv6Packet(src, dst, 58, 64, icmp6(src, dst, 128, 0, pickID(r), pickID(r), payload(r, n), false))
+	}
+	var p []byte
+	var cs []int
+	kind := ""
+	switch k % 6 {
+	case 0: // the recorded witness: echo data in views of 3 + 4 bytes (the first view = headers + 3 bytes)
+		p, cs, kind = mk(7), []int{51, 4}, "v6-odd-3+4"
+	case 1: // 1 + 1 + 1 (+ what is left)
+		p, cs, kind = mk([]int{3, 4, 9, 64, 1000}[r.Intn(5)]), []int{49, 1, 1}, "v6-odd-1+1+1"
+	case 2: // a view of exactly the 48 header bytes, then an odd data view, then anything
+		n := 2 + r.Intn(300)
+		if r.Intn(4) == 0 {
+			n = 2 + r.Intn(1451)
+		}
+		first := 1 + 2*r.Intn(n/2)
+		p, kind = mk(n), "v6-odd-after-header-view"
+		cs = append([]int{48, first}, moreChunks(r, n-first, false)...)
+	case 3: // every view of the data odd (up to 7 views, the last takes what is left)
+		n := 2 + r.Intn(200)
+		p, kind = mk(n), "v6-odd-all-views"
+		cs = []int{48 + 1 + 2*r.Intn(4)}
+		for left := n - (cs[0] - 48); left > 1 && len(cs) < 6; {
+			c := 1 + 2*r.Intn((left+1)/2)
+			if r.Intn(2) == 0 {
+				c = 1 + 2*r.Intn(3)
+			}
+			if c >= left {
+				break
+			}
+			cs = append(cs, c)
+			left -= c
+		}
+	default: // random splits at any offset, kept when a non-final data view is odd
+		n := []int{7, 3, 2, 9, 64, 2 + r.Intn(300), 1000 + r.Intn(453)}[r.Intn(7)]
+		p, kind = mk(n), "v6-odd-random-split"
+		for try := 0; ; try++ {
+			cs = chunks(r, len(p), 48, false)
+			if oddNonFinal(dataViews(len(p), cs, 48)) {
+				break
+			}
+			if try == 30 {
+				cs = []int{48 + 1 + 2*r.Intn(n/2)}
+				break
+			}
+		}
+	}
+	if !oddNonFinal(dataViews(len(p), cs, 48)) {
+		w.count("v6-odd-generator-miss")
+	}
+	w.lenBucket(len(p) - 48)
+	w.shot6(p, cs, kind)
 }
 
 func (w *world) splitHdr(r *gen.Rng, n int) {
@@ -731,7 +823,7 @@ func main() {
 	seed := flag.Uint64("seed", 1, "seed")
 	n := flag.Int("n", 200, "random echo requests per family and view mode (other streams scale with it)")
 	all := flag.Bool("all", false, "every payload length 0..1472 for both families (thorough tier)")
-	odd := flag.Bool("odd6", false, "also IPv6 requests whose data arrives in views with an odd non-final size (known finding C13-echo6-odd-chunk)")
+	flag.Bool("odd6", true, "ignored (kept for old replay files): IPv6 requests whose data arrives in views with an odd non-final size are always generated")
 	split := flag.Bool("splithdr", false, "also requests whose ICMP header is not inside the first view (known finding C13-split-header)")
 	flag.Parse()
 	out := bufio.NewWriterSize(os.Stdout, 1<<20)
@@ -775,8 +867,8 @@ func main() {
 		if i%25 == 0 {
 			w.freeBurst(r, 1+r.Intn(30), r.Bool())
 		}
-		if *odd && i%2 == 0 {
-			w.odd6(r, []int{7, 3, 1, 9, 64, 1 + r.Intn(300)}[r.Intn(6)])
+		if i%2 == 0 {
+			w.odd6(r, i/2)
 		}
 		if *split && i%4 == 0 {
 			w.splitHdr(r, r.Intn(64))
@@ -790,7 +882,7 @@ func main() {
 	w.stray()
 	fmt.Fprintf(out, "KStray []\n")
 
-	fmt.Fprintf(out, "# seed %d n %d all %v odd6 %v splithdr %v\n", *seed, *n, *all, *odd, *split)
+	fmt.Fprintf(out, "# seed %d n %d all %v odd6 always splithdr %v\n", *seed, *n, *all, *split)
 	fmt.Fprintf(out, "# payload length buckets [0,1-8,9-40,41-128,129-512,513-1024,1025-1400,1401-1472]: %v\n", w.lens)
 	var keys []string
 	for k := range w.counts {
